@@ -235,6 +235,19 @@ def check_souden_wmwf(run, A):
                 if len(items) == 2 and const_val(items[0]) is Ellipsis and derives(items[1], ref_param) or (len(items) == 2 and const_val(items[0]) is Ellipsis and
                                                                                                               any(call_parts(y)[0] == B + 'get_optimal_reference_channel' for y in walk_terms(items[1]))):
                     sel_ok += 1
+        def matvec_with_selection(x_):
+            # filter @ e written as a matrix-vector product: einsum('...dD,...D->...d', filter, e) - the vector is contracted with the COLUMN index
+            x_ = strip_views(x_)
+            if not is_call_to(x_, 'numpy.einsum') or len(call_parts(x_)[1]) != 3 or not isinstance(const_val(call_parts(x_)[1][0]), str):
+                return None
+            import re as _re
+            m_ = _re.fullmatch(r'\.\.\.([a-zA-Z])([a-zA-Z]),\.\.\.([a-zA-Z])->\.\.\.([a-zA-Z])', const_val(call_parts(x_)[1][0]).replace(' ', ''))
+            if not m_ or m_.group(1) == m_.group(2):
+                return None
+            mat_, vec_ = call_parts(x_)[1][1], call_parts(x_)[1][2]
+            if not (derives(vec_, 'channel_selection_vector') and any(y is t for y in walk_terms(mat_))):
+                return None
+            return m_.group(3) == m_.group(2) and m_.group(4) == m_.group(1)          # True: column contracted, row kept; False: the row is contracted (e^T filter)
         want = sum(1 for x in alts if not is_call_to(strip_views(x), 'numpy.sum', 'numpy.einsum'))
         # the other return paths apply a channel selection VECTOR e: filter @ e = sum over the column (last) axis of filter[..., d, D] * e[..., None, D]
         for x in alts:
@@ -242,6 +255,11 @@ def check_souden_wmwf(run, A):
             if not is_call_to(x, 'numpy.sum', 'numpy.einsum'):
                 continue
             from ..walk import last_axis_product_sum, newaxis_insertions
+            mv_ = matvec_with_selection(x)
+            if mv_ is not None:
+                run.check(mv_, 'R-ROLE', f'{name}: a channel selection vector is applied to the COLUMN index of the filter matrix', fn.loc(x.node), '',
+                          'the selection vector is contracted with the ROW index of the filter matrix (e^T filter instead of filter @ e)', construct=f'R-ROLE::{q}::selection-vector')
+                continue
             lp = last_axis_product_sum(x)
             okv = False
             if lp is not None and not lp[2]:
@@ -262,6 +280,8 @@ def check_souden_wmwf(run, A):
             run.check(okm, 'R-ROLE', 'get_mvdr_vector_souden: matrix divided by the floored trace', fn.loc(), '', 'phi / maximum(trace.real, eps) not found', construct=f'R-ROLE::{q}::trace-division')
         else:
             mats = [t2 for e in g.events if e.term is not None for t2 in walk_terms(e.term) if t2.op in ('binop', 'iop') and t2.args[0] == 'Div' and strip_views(t2.args[1]) is t]
+            if not tr:
+                raise AnalysisError('get_wmwf_vector: the trace lambda = tr(Phi_nn^-1 Phi_xx) is no longer recognised (np.trace call not found)')
             okm = False
             for m in mats:
                 # the denominator may be selected (frequency dependent weight / plain mu) before one shared division
